@@ -664,3 +664,88 @@ def entity_links_relative(ctx):
     if nrel:
         ctx.twins += 1
     ctx.sample({"sites": len(sites), "through relurl": nrel})
+
+
+# ---------------------------------------------------------------------------------------
+# O6: a link to page#anchor is emitted for an entity iff `visible`; the anchor is rendered only for entities that are still listed in
+# their parent after prune(): visible in-page entities must be listed
+# ---------------------------------------------------------------------------------------
+BACC = [("procedure :: {n}", "public"), ("procedure, private :: {n}", "private"), ("procedure, public :: {n}", "public"), ("PROCEDURE, PRIVATE :: {N}", "private")]
+TDEF = [("integer :: c", False), ("private", False)]   # a `private` statement before CONTAINS concerns components only
+DISP9 = [["public", "protected"], ["public", "private", "protected"], ["private"]]
+
+
+def _o6_files(b1, b2):
+    return {"a.f90": ["module shapes", "type accumulator", "integer :: total", "contains", b1, b2, "generic, public :: add => add_int, add_real",
+                      "end type accumulator", "contains", "subroutine add_int(self)", "class(accumulator) :: self", "end subroutine add_int",
+                      "subroutine add_real(self)", "class(accumulator) :: self", "end subroutine add_real", "end module shapes"]}
+
+
+def _o6_observe(p):
+    t = p.modules[0].types[0] if p.modules and p.modules[0].types else None
+    if t is None:
+        return []
+    listed = list(t.boundprocs)
+    out = []
+    seen = []
+    for b in listed:
+        for x in getattr(b, "bindings", []) or []:
+            if hasattr(x, "visible") and type(x).__name__ == "FortranBoundProcedure" and not any(x is y for y in seen):
+                seen.append(x)
+                out.append((str(x.name).lower(), bool(getattr(x, "visible", False)), any(x is y for y in listed), x.get_url()))
+    for b in listed:
+        out.append((str(b.name).lower(), bool(getattr(b, "visible", False)), True, b.get_url()))
+    return out
+
+
+def replay_o6(w):
+    files = {k: "\n".join(v) + "\n" for k, v in _o6_files(w["b1"], w["b2"]).items()}
+    d, outdir, rc, log = fordrun.run_ford(files, {"search": "false", "display": "\n    ".join(w["display"])})
+    try:
+        broken = (fordrun.broken_links(outdir) + fordrun.broken_fragments(outdir)) if rc == 0 else [("ford failed", log[-300:])]
+    finally:
+        import shutil
+        shutil.rmtree(d, ignore_errors=True)
+    return bool(broken), {"bindings": [w["b1"], w["b2"]], "display": w["display"], "links whose file or #fragment does not exist": broken[:6]}
+
+
+@obligation("C09", "O6.anchor-link-implies-listed", engine="SX(CV)", timeout=900)
+def anchor_links(ctx):
+    """type with two specific bindings of symbolic accessibility behind a public generic, symbolic display setting: every type-bound
+    procedure that is `visible` (so links to type.html#boundprocedure-NAME are written) is still listed in the type (so that id exists)"""
+    import ford.sourceform as sf
+
+    ctx.encode_fn(sf.FortranType.prune)
+    ctx.encode_fn(sf.FortranBase.__str__)
+    ctx.bounds.update({"binding spellings": len(BACC), "display settings": DISP9})
+
+    def h(E):
+        a1 = CV.choice(E, "b1", BACC)
+        a2 = CV.choice(E, "b2", BACC)
+        di = CV.choice(E, "display", list(range(len(DISP9)))).concretize()
+        b1 = choice.apply(lambda t: t[0].replace("{n}", "add_int").replace("{N}", "ADD_INT"), a1)
+        b2 = choice.apply(lambda t: t[0].replace("{n}", "add_real").replace("{N}", "ADD_REAL"), a2)
+        E.e.snapshot = lambda m: {"b1": choice.value_in_model(m, b1), "b2": choice.value_in_model(m, b2), "display": DISP9[di]}
+        obs = parserh.project(_o6_files(b1, b2), post=_o6_observe, display=list(DISP9[di]), proc_internals=True)
+        E.reachable("pruned")
+        if any(not listed for _, _, listed, _ in obs):
+            E.reachable("a binding was pruned")
+        for name, visible, listed, url in obs:
+            E.require(sym.mk_bool(z3.BoolVal((not visible) or listed)),
+                      f"binding {name}: links to its anchor are written although the anchor is not rendered (pruned from the type)")
+
+    E = sym.Engine(ctx, max_paths=5000, incremental=True)
+    found = E.explore(h)
+    seen = set()
+    for (label, m, pc), snap in zip(found, E.snapshots):
+        key = label.split(":")[1] if ":" in label else label
+        if key in seen or not snap:
+            continue
+        seen.add(key)
+        ctx.report(label, snap, replay_o6)
+    for lab in ("pruned", "a binding was pruned"):
+        if E.reached.get(lab):
+            ctx.twins += 1
+        else:
+            ctx.inconclusive.append(f"vacuity: '{lab}' never reached")
+    ctx.sample({"paths": E.paths})
